@@ -9,13 +9,13 @@ W = {"n_quick": 160, "n_thorough": 4000}
 
 PROPS = {
     "C01": {"title": "serialise-then-parse round trip", "level": "other",
-            "sections": [("pyvc", {}), ("atnk", {"groups": ["canon_lex", "lexer_eq"]}), ("lean", {"files": ["Fold.lean"]}), ("witness", W)],
+            "sections": [("frames", {}), ("pyvc", {}), ("atnk", {"groups": ["canon_lex", "lexer_eq"]}), ("lean", {"files": ["Fold.lean"]}), ("witness", W)],
             "explanation": "contracts on serialize/_value_to_blackbird/numpy_to_blackbird and on the load side (PyVC, discharged by z3) + complete lexical lemmas on the "
                            "shipped lexer DFA; parse-back of serializer output by the shipped parser is a bounded stand-in (witness family roundtrip)"},
     "C02": {"title": "loading yields the program the script denotes", "level": "proof",
             "sections": [("pyvc", {}), ("frames", {}), ("atnk", {"groups": ["identity"]}), ("lean", {"files": ["Walk.lean"]}), ("witness", W)]},
     "C03": {"title": "expressions evaluate to their arithmetic value", "level": "proof",
-            "sections": [("pyvc", {}), ("atnk", {"groups": ["precedence", "literals"]}), ("witness", W)]},
+            "sections": [("frames", {}), ("pyvc", {}), ("atnk", {"groups": ["precedence", "literals"]}), ("witness", W)]},
     "C04": {"title": "instantiating a template equals substitution", "level": "other",
             "explanation": "contracts on __call__/_bind_parameters/exitProgram/parameters/is_template and on the load side are discharged (PyVC, z3) and the frame/"
                            "aliasing clauses of __call__ are decided; but the spec of exitArrayvar (parameter positions inside arrays) mirrors the code's "
@@ -30,18 +30,18 @@ PROPS = {
                            "assumed NumPy contracts (A-numpy-array); layout end-to-end is a bounded stand-in (witness families decl_types, decl_types_x)",
             "sections": [("pyvc", {}), ("frames", {}), ("lean", {"files": ["Fold.lean"]}), ("witness", W)]},
     "C06": {"title": "a for-loop equals its unrolling", "level": "proof",
-            "sections": [("pyvc", {}), ("lean", {"files": ["Walk.lean"]}), ("witness", W)]},
+            "sections": [("frames", {}), ("pyvc", {}), ("lean", {"files": ["Walk.lean"]}), ("witness", W)]},
     "C07": {"title": "calling an included program equals inlining it", "level": "proof",
             "sections": [("pyvc", {}), ("frames", {}), ("witness", {"n_quick": 60, "n_thorough": 800})]},
     "C08": {"title": "measured-register arguments become transforms", "level": "proof",
             "sections": [("pyvc", {}), ("frames", {}), ("witness", W)]},
     "C09": {"title": "API-built programs serialise to valid, equivalent scripts", "level": "other",
-            "sections": [("pyvc", {}), ("atnk", {"groups": ["canon_lex"]}), ("lean", {"files": ["Fold.lean"]}), ("witness", W)],
+            "sections": [("frames", {}), ("pyvc", {}), ("atnk", {"groups": ["canon_lex"]}), ("lean", {"files": ["Fold.lean"]}), ("witness", W)],
             "explanation": "as C01, starting from API-built programs; the parse-back of the emitted text is bounded (witness family api_serialize)"},
     "C10": {"title": "ungrammatical scripts raise BlackbirdSyntaxError at the offending token", "level": "proof",
-            "sections": [("pyvc", {}), ("atnk", {"groups": ["dominance", "identity", "lexer_eq", "parser_eq", "codegen_sim"]}), ("witness", W)]},
+            "sections": [("frames", {}), ("pyvc", {}), ("atnk", {"groups": ["dominance", "identity", "lexer_eq", "parser_eq", "codegen_sim"]}), ("witness", W)]},
     "C11": {"title": "ill-formed but grammatical programs are refused", "level": "proof",
-            "sections": [("pyvc", {}), ("witness", W)]},
+            "sections": [("frames", {}), ("pyvc", {}), ("witness", W)]},
     "C12": {"title": "each load is independent of every earlier load", "level": "proof",
             "sections": [("pyvc", {}), ("frames", {}), ("lean", {"files": ["Walk.lean"]}), ("witness", {"n_quick": 25, "n_thorough": 150})]},
     "C13": {"title": "read-only operations leave programs unchanged; instances independent", "level": "proof",
@@ -55,15 +55,15 @@ PROPS = {
             "explanation": "contracts on the p-registration branch of exitArrayvar, the VariableLabel branch of _expression, exitProgram, is_ptype/_is_ptype, "
                            "_value_to_blackbird and serialize are discharged (PyVC, z3); the tdm declaration block of serialize is specified by a spec that mirrors the "
                            "code, and the re-load of the emitted declarations by the shipped parser is a bounded stand-in (witness families tdm, tdm_x, roundtrip_x)",
-            "sections": [("pyvc", {}), ("witness", W)]},
+            "sections": [("frames", {}), ("pyvc", {}), ("witness", W)]},
     "C16": {"title": "the dependency graph is an order-respecting DAG", "level": "proof",
-            "sections": [("pyvc", {}), ("lean", {"files": ["Graph.lean", "GridEdges.lean"]}), ("witness", W)]},
+            "sections": [("frames", {}), ("pyvc", {}), ("lean", {"files": ["Graph.lean", "GridEdges.lean"]}), ("witness", W)]},
     "C17": {"title": "template matching inverts instantiation", "level": "other",
             "sections": [("pyvc", {}), ("frames", {}), ("lean", {"files": ["Graph.lean"]}), ("witness", W)],
             "explanation": "prechecks and argument loop of match_template under assumed contracts for DiGraphMatcher/solve (heavy assumptions, listed); reordering "
                            "isomorphism lemma G4 in Lean; the end-to-end left-inverse is a bounded stand-in (witness family template_match)"},
     "C18": {"title": "layout does not change the program", "level": "other",
-            "sections": [("atnk", {"groups": ["layout", "lexer_eq"]}), ("pyvc", {}), ("witness", W)],
+            "sections": [("frames", {}), ("atnk", {"groups": ["layout", "lexer_eq"]}), ("pyvc", {}), ("witness", W)],
             "explanation": "complete lexical lemmas LX1-LX4 on the shipped lexer DFA + NEWLINE-stutter lemma per rule on the shipped parser ATN (sufficient condition) + "
                            "contracts showing handlers read only content children; independence of ANTLR's chosen derivation from NEWLINE attachment is assumed "
                            "(A-layout-tree) with a bounded stand-in (witness family layout_edits)"},
